@@ -8,7 +8,7 @@ CONSTANTS
   MaxOps = 9
   RetryExact = TRUE
   SyncTask = TRUE
-  Dev = {}
+  Dev = {"late-same-peer"}
 INIT Init
 NEXT Next
 VIEW view
